@@ -509,6 +509,290 @@ def rng_commit(k):
     return k % 3 == 0
 
 
+
+# --------------------------------------------------------------------------
+# two-step sequences: merge-like command(s) that rename / move edited files, then revert / remove / merge
+
+SEQ_BRING = ["pull", "merge", "update", "switch"]
+SEQ_FINAL = ["revert", "revert", "revert-path", "revert-path", "merge-other", "remove-path"]
+
+
+def gen_sequence(seed_tuple):
+    """seed_tuple = (seed, fmt, index | "min-<bring>", "seq")"""
+    fmt, idx = seed_tuple[1], seed_tuple[2]
+    rng = random.Random(repr(tuple(seed_tuple)))
+    sc = dict(id=list(seed_tuple), fmt=fmt, cmd="seq")
+    if isinstance(idx, str) and idx.startswith("min-"):
+        # the minimal sequence: one edited file, the incoming revision only renames it, then revert
+        sc.update(files=["f0", "f1"], bring=idx[4:], moves=[["f0", "f0r"]], mods=[], adds=[], chain=None,
+                  edits=[["f0", "bottom", "EDIT-min-1"]], unknown=[], final="revert")
+        return sc
+    files = [f for f in FILES if rng.random() < 0.9] or ["f0"]
+    sc["files"] = files
+    sc["bring"] = rng.choice(SEQ_BRING)
+    pool = list(files)
+    rng.shuffle(pool)
+    moves = []
+    for f in pool[:rng.randint(1, 2)]:
+        how = rng.random()
+        if how < 0.4:
+            new = f + "r"                                         # rename in place
+        elif "/" in f:
+            new = os.path.basename(f) + "m"                       # out of its directory
+        else:
+            new = "nd/" + f + "m" if how < 0.7 else "d/" + f + "m"   # into a new / an existing directory
+        moves.append([f, new])
+    sc["moves"] = moves
+    moved = [m[0] for m in moves]
+    sc["mods"] = [f for f in files if f not in moved and rng.random() < 0.35]      # content changed by the incoming revision
+    sc["adds"] = ["inc0"] if rng.random() < 0.4 else []
+    # an optional second incoming revision (chained merge-like command)
+    chain = None
+    if rng.random() < 0.4:
+        rest = [f for f in files if f not in moved and f not in sc["mods"]]
+        cm = []
+        if rest and rng.random() < 0.6:
+            cm.append([rest[0], rest[0] + "r2"])
+        elif moves:
+            cm.append([moves[0][1], moves[0][1] + "2"])            # rename the renamed file again
+        chain = dict(moves=cm, mods=[f for f in sc["mods"][:1] if rng.random() < 0.5])
+    sc["chain"] = chain
+    k = [0]
+
+    def tok():
+        k[0] += 1
+        return "EDIT-%s-%d" % (idx, k[0])
+    sc["edits"] = []
+    for f in files:
+        p_edit = 0.85 if f in moved else 0.4 if f in sc["mods"] else 0.3
+        if rng.random() < p_edit:
+            sc["edits"].append([f, rng.choice(["top", "bottom", "bottom", "whole"]) if f not in sc["mods"] else "bottom", tok()])
+    sc["unknown"] = [["u0", "UNK-%s-%d" % (idx, 99)]] if rng.random() < 0.4 else []
+    sc["final"] = rng.choice(SEQ_FINAL)
+    return sc
+
+
+def _apply_incoming(main, root, moves, mods, adds, version):
+    for f in mods:
+        if os.path.exists(os.path.join(root, f)):
+            _write(root, f, open(os.path.join(root, f)).read().replace("L%d v" % version, "L%d inc v" % version))
+    for old, new in moves:
+        if not os.path.exists(os.path.join(root, old)):
+            continue
+        d = os.path.dirname(new)
+        if d and not os.path.isdir(os.path.join(root, d)):
+            os.mkdir(os.path.join(root, d))
+            main.add([d])
+        main.rename_one(old, new)
+    for f in adds:
+        _write(root, f, "incoming new %d\n" % version)
+        main.add([f])
+
+
+def _bring(kind, wt, main, first):
+    from breezy.workingtree import WorkingTree
+    wt = WorkingTree.open(wt.basedir)
+    if kind == "pull":
+        wt.pull(main.branch)
+    elif kind == "merge":
+        wt.merge_from_branch(main.branch, force=True)
+    elif kind == "update" or (kind == "switch" and not first):
+        wt.update()
+    elif kind == "switch":
+        from breezy import switch
+        switch.switch(wt.controldir, main.branch, force=True)
+
+
+def run_sequence(seed_tuple):
+    try:
+        return _run_sequence(seed_tuple)
+    except Exception as e:
+        import traceback
+        return dict(harness_error="%s: %s" % (type(e).__name__, traceback.format_exc()[-600:]), id=list(seed_tuple))
+
+
+def _run_sequence(seed_tuple):
+    from breezy.workingtree import WorkingTree
+    sc = gen_sequence(seed_tuple)
+    fmt = sc["fmt"]
+    main = env.make_tree(fmt)
+    root = main.basedir
+    for f in sc["files"]:
+        _write(root, f, base_text(f))
+    main.smart_add([root])
+    rev1 = main.commit("rev1")
+    # a side branch for the final "merge-other"
+    odir = env.fresh_dir("sother")
+    os.rmdir(odir)
+    other = main.controldir.sprout(odir).open_workingtree()
+    _write(odir, "o-only", "other side\n")
+    other.add(["o-only"])
+    other.commit("other")
+    # the tree the user works in
+    wdir = env.fresh_dir("swork")
+    os.rmdir(wdir)
+    bring = sc["bring"]
+    dirs = [root, odir, wdir]
+    if bring in ("pull", "merge"):
+        wt = main.controldir.sprout(wdir).open_workingtree()
+    elif bring == "update":
+        wt = main.branch.create_checkout(wdir, lightweight=True)
+    else:
+        bdir = env.fresh_dir("sbase")
+        os.rmdir(bdir)
+        dirs.append(bdir)
+        base_br = main.controldir.sprout(bdir).open_branch()
+        wt = base_br.create_checkout(wdir, lightweight=True)
+    # user edits (before the incoming revision exists in the tree)
+    tracked = {}
+    for f, how, token in sc["edits"]:
+        text = apply_edit(open(os.path.join(wdir, f)).read(), how, token)
+        _write(wdir, f, text)
+        tracked[text] = f
+    for pth, token in sc["unknown"]:
+        _write(wdir, pth, token + "\nunknown\n")
+        tracked[token + "\nunknown\n"] = pth
+    steps = []
+    lost = []
+
+    def snapshot():
+        w = WorkingTree.open(wdir)
+        return all_files(wdir, w)
+
+    def account(step, kind, after, exempt=()):
+        """tracked contents must still exist verbatim; after a merge-like step a content whose lines were
+        merged into a file is from then on "written by a merge" and is no longer tracked"""
+        for text in list(tracked):
+            if text in after.values():
+                continue
+            origin = tracked.pop(text)
+            toks = _tokens(text)
+            if kind == "merge-like" and toks and any(all(t in a.split("\n") for t in toks) for a in after.values()):
+                continue
+            if origin in exempt:
+                continue
+            lost.append(dict(step=step, origin=origin, text=text[:60]))
+
+    def mm_facts(moves, mods, adds):
+        """[(path, otherChangedContent, otherAdded, onlyMoved, recorded)] for versioned files after a merge-like step"""
+        w = WorkingTree.open(wdir)
+        out = []
+        if not w.supports_merge_modified():
+            return out
+        with w.lock_read():
+            mm = w.merge_modified()
+            newname = dict((m[0], m[1]) for m in moves)
+            for pth in sorted(all_files(wdir, w)):
+                if not w.is_versioned(pth):
+                    continue
+                changed = pth in mods
+                added = pth in adds
+                only_moved = pth in newname.values()
+                out.append((pth, changed, added, only_moved, pth in mm))
+        return out
+    # ---- step 1 (and 1b): merge-like commands
+    incoming = [(sc["moves"], sc["mods"], sc["adds"])]
+    if sc["chain"]:
+        incoming.append((sc["chain"]["moves"], sc["chain"]["mods"], []))
+    mmobs = []
+    cum_mods, cum_adds, cum_moves = [], [], []
+    path_now = {f: f for f in sc["files"]}
+    for n, (moves, mods, adds) in enumerate(incoming):
+        mods_now = [path_now.get(f, f) for f in mods]
+        _apply_incoming(main, root, moves, mods_now, adds, n + 2)
+        main.commit("rev%d" % (n + 2))
+        for old, new in moves:
+            for f0, cur in list(path_now.items()):
+                if cur == old:
+                    path_now[f0] = new
+        err = None
+        try:
+            _bring(bring, wt, main, n == 0)
+        except Exception as e:
+            import traceback
+            err = "%s: %s" % (type(e).__name__, traceback.format_exc()[-300:])
+        after = snapshot()
+        steps.append(dict(cmd=bring if n == 0 else (bring if bring != "switch" else "update"), err=err))
+        account(len(steps), "merge-like", after)
+        if bring == "merge":
+            # the first merge is not committed: the second merge from the same branch writes its texts again
+            cum_mods = sorted(set([path_now.get(f, f) for f in cum_mods] + mods_now))
+            cum_adds = sorted(set(cum_adds + adds))
+            cum_moves = cum_moves + moves
+        else:
+            cum_mods, cum_adds, cum_moves = mods_now, adds, moves
+        if err is None:
+            fs = mm_facts(cum_moves, cum_mods, cum_adds)
+            if bring == "merge" and n > 0:
+                # whether a repeated, uncommitted merge rewrites a text depends on the local edits; what is
+                # compared there is that nothing the merges did not write is recorded
+                fs = [f for f in fs if not f[1] and not f[2]]
+            mmobs.append(dict(step=len(steps), facts=fs))
+    # ---- final step
+    final = sc["final"]
+    edited_moved = [path_now[f] for f, _h, _t in sc["edits"] if path_now[f] != f and os.path.exists(os.path.join(wdir, path_now[f]))]
+    target = edited_moved[0] if edited_moved else None
+    before_final = snapshot()
+    facts = []
+    err = None
+    w = WorkingTree.open(wdir)
+    try:
+        if final in ("revert", "revert-path") or (final == "remove-path" and target is None):
+            fsc = dict(backups=True, old=False, select=[target] if (final == "revert-path" and target) else None)
+            b = dict(wt=w, rev1=rev1)
+            facts = [(pth, {k: v for k, v in f.items() if k != "text"}, f["text"]) for pth, f in revert_facts(fsc, b)]
+            with w.lock_tree_write():
+                w.revert(filenames=fsc["select"], backups=True)
+            final = "revert-path" if fsc["select"] else "revert"
+        elif final == "remove-path":
+            w.remove([target], keep_files=False, force=False)
+        elif final == "merge-other":
+            w.merge_from_branch(other.branch, force=True)
+    except Exception as e:
+        import traceback
+        err = "%s: %s" % (type(e).__name__, traceback.format_exc()[-300:])
+    after = snapshot()
+    steps.append(dict(cmd=final, err=err, target=target))
+    account(len(steps), "merge-like" if final == "merge-other" else "exact", after)
+    res = dict(sc=sc, steps=steps, lost=lost, mm=mmobs,
+               facts=[(pth, f, fate(pth, t, before_final, after)) for pth, f, t in facts] if err is None else [],
+               ntracked=len(sc["edits"]) + len(sc["unknown"]))
+    for d in dirs:
+        shutil.rmtree(d, ignore_errors=True)
+    return res
+
+
+def check_sequence(ctx, res, flag):
+    sc = res["sc"]
+    cid = dict(id=sc["id"], fmt=sc["fmt"], cmd="seq",
+               sequence=[s["cmd"] for s in res["steps"]], incoming_moves=sc["moves"], incoming_mods=sc["mods"],
+               chain=sc["chain"], edits=sc["edits"], final_target=res["steps"][-1].get("target"))
+    ctx.case(dict(sc=sc), nontrivial=bool(sc["edits"]))
+    ctx.count("seq:%s:%s+%s%s" % (sc["fmt"], sc["bring"], res["steps"][-1]["cmd"], "+chain" if sc["chain"] else ""))
+    for st in res["steps"]:
+        if st["err"]:
+            ctx.count("error:seq:%s:%s" % (st["cmd"], st["err"].split(":")[0]))
+    for l in res["lost"]:
+        ctx.count("user-content:LOST")
+        ctx.violation(dict(cid, lost=l), "sequence %s: step %d (%s) discarded the user's content of %r (written before the sequence; "
+                      "not in the tree, not in a backup or helper file afterwards): %r"
+                      % (" ; ".join(s["cmd"] for s in res["steps"]), l["step"], res["steps"][l["step"] - 1]["cmd"], l["origin"], l["text"]))
+    cases, lines, impls = [], [], []
+    for ob in res["mm"]:
+        for pth, changed, added, only_moved, recorded in ob["facts"]:
+            ctx.count("merge-hashes:%s" % ("content-changed" if changed else "added" if added else "only-moved" if only_moved else "untouched"))
+            cases.append(dict(cid, merge_hashes_after_step=ob["step"], path=pth))
+            lines.append("mm %s %s %s" % (TF(changed), TF(added), TF(only_moved)))
+            impls.append("recorded" if recorded else "absent")
+    for pth, f, observed in res["facts"]:
+        cases.append(dict(cid, path=pth, inputs=f))
+        lines.append("revert %s %s f %s %s %s %s %s %s" % (
+            TF(flag), TF(f["changed"]), TF(f["backups"]), KC[f["tkind"]], TF(f["tversioned"]),
+            TF(f["mm"] is not None and f["mm"] == f["wsha"]), TF(f["bpresent"]), TF(f["bsha"] is not None and f["bsha"] == f["wsha"])))
+        impls.append(observed)
+    return cases, lines, impls
+
+
 # --------------------------------------------------------------------------
 # T1
 
@@ -650,10 +934,24 @@ def run(ctx, n=None):
     flag = _flag(ctx)
     n = n or ctx.pick(70, 700)
     # ---- S1 commands
-    seeds = _corpus() + _scenarios(ctx, n)
+    seeds = [t for t in _corpus() if t[3] != "seq"] + _scenarios(ctx, n)
     results = ctx.pmap(run_scenario, seeds)
     cases, lines, impls = [], [], []
     nerr = 0
+    # ---- S1b two-step sequences
+    seqs = [t for t in _corpus() if t[3] == "seq"]
+    for fmt in ("2a", "2a", "git"):
+        for i in range(ctx.pick(14, 120)):
+            seqs.append((ctx.seed, fmt, i if fmt != "2a" or len([x for x in seqs if x[1] == "2a" and x[0] == ctx.seed]) < ctx.pick(14, 120) else i + 1000, "seq"))
+    seqs = list(dict.fromkeys(seqs))
+    for res in ctx.pmap(run_sequence, seqs):
+        if "harness_error" in res:
+            nerr += 1
+            ctx.count("harness-error:seq:" + res["harness_error"].split(":")[0])
+            ctx.extra.setdefault("harness_errors", []).append(dict(id=res["id"], error=res["harness_error"][-300:]))
+            continue
+        c, l, i = check_sequence(ctx, res, flag)
+        cases += c; lines += l; impls += i
     for res in results:
         if "harness_error" in res:
             nerr += 1
@@ -716,6 +1014,14 @@ def widen(ctx):
 
 def replay(ctx, case):
     flag = _flag(ctx)
+    if "id" in case and case["id"][3] == "seq":
+        res = run_sequence(tuple(case["id"]))
+        if "harness_error" in res:
+            return dict(case=case, error=res["harness_error"])
+        c, l, i = check_sequence(ctx, res, flag)
+        m = ctx.model(l) if l else []
+        return dict(case=case, scenario=res["sc"], steps=res["steps"], lost=res["lost"], merge_hashes=res["mm"], impl=i, model=m,
+                    oracle_failures=[dict(what=v["what"], family=v["family"]) for v in ctx.violations])
     if "id" in case:
         res = run_scenario(tuple(case["id"]))
         c, l, i = check_scenario(ctx, res, flag)
